@@ -13,7 +13,7 @@
    here; for them — and for the composition — C08 relies on the crash-search stream (implementation-only
    oracle) of checks/c08.py.  See [C08_full] below for what the full statement needs. *)
 From Coq Require Import ZArith NArith List Bool.
-From Verif Require Import gen.GenTables gen.GenFlagTable c08.LR c08.LRCheck c08.LRProofs c08.LRInstance
+From Verif Require Import gen.GenTables gen.GenFlagTable c08.LR c08.LRCheck c08.LRProofs c08.LRTerm c08.LRInstance c08.LRTheorems
   c08.Flags c08.FlagsProofs c08.Utf8Dec c08.Preview c08.PreviewProofs.
 Import ListNotations.
 Open Scope Z_scope.
@@ -28,12 +28,42 @@ Theorem C08_parse_driver_total : forall (input : list Z) (fuel : nat) (site : na
 Proof. exact parse_driver_total. Qed.
 Print Assumptions C08_parse_driver_total.
 
-(* the same for ANY tables passing the finite check [closed] with some relation E and bounds MD
-   (what has to be re-established by computation when parser.go is regenerated) *)
-Theorem C08_parse_driver_total_generic : forall T E MD, closed T E MD = true ->
+(* TOTAL CORRECTNESS of the driver: for every list of lexer results, with any fuel of at least
+   parse_fuel (len input) = fuel_A * len input + fuel_B rounds (the numbers are computed from the tables; today
+   fuel_A = 2 * (2*C + 2*R + 2), C = 283 states + 1, R = 853), the driver RETURNS — accept or syntax error — and
+   so never panics and never runs on.  Termination rests on a ranking RHO of the states, computed by relaxation
+   inside Coq and checked over every reduction edge: C * depth + RHO(top) drops at every reduction (no cyclic
+   unit / epsilon reduction chains), error recovery is paid by Errflag, shifts and discards by the input. *)
+Theorem C08_parse_driver_total_correct : forall (input : list Z) (fuel : nat),
+  (parse_fuel (length input) <= fuel)%nat ->
+  exists c', LR.run the_tables fuel (LR.init input) = OAccept c' \/ LR.run the_tables fuel (LR.init input) = OReject c'.
+Proof. exact parse_driver_total_correct. Qed.
+Print Assumptions C08_parse_driver_total_correct.
+
+(* the Panic sites include the dynamic type assertions yyDollar[k].value.(T) of the semantic actions
+   (site 70): the model carries, next to the state stack, the dynamic type of every yyS[i].value
+   (0 = nil interface for token slots — the lexer never writes lval.value —, the static Go type of what an
+   action stores, the type of yyDollar[k] for `$$ = $k` and goyacc's default `$$ = $1`).  AL_real is the
+   symbol type map computed from the tables and the translated actions: every one of the 282 states allows
+   exactly ONE dynamic type for its slot. *)
+Theorem C08_symbol_type_map_is_a_function : n_single_typed = length AL_real /\ length AL_real = length (tPact the_tables).
+Proof. exact (conj (eq_refl 282%nat) (eq_refl 282%nat)). Qed.
+Print Assumptions C08_symbol_type_map_is_a_function.
+
+(* the same for ANY tables passing the finite checks [closed] (safety, with some relation E, depth bounds MD and
+   type map AL) and [term_ok] (termination, with some ranking RHO): what has to be re-established by
+   computation when parser.go is regenerated *)
+Theorem C08_parse_driver_total_generic : forall T E MD AL, closed T E MD AL = true ->
   forall (input : list Z) (fuel : nat) (site : nat), LR.run T fuel (LR.init input) <> OPanic site.
 Proof. exact driver_never_panics. Qed.
 Print Assumptions C08_parse_driver_total_generic.
+
+Theorem C08_parse_driver_terminates_generic : forall T E MD AL RHO, closed T E MD AL = true -> term_ok T E RHO = true ->
+  forall input : list Z,
+  exists c', LR.run T (fuel_bound T RHO (length input)) (LR.init input) = OAccept c' \/
+             LR.run T (fuel_bound T RHO (length input)) (LR.init input) = OReject c'.
+Proof. exact driver_total. Qed.
+Print Assumptions C08_parse_driver_terminates_generic.
 
 (* finite statement (i), bounds explicit: for every state number 0 <= s < len(yyPact) (= 282 today) and
    every token number yylex1 can produce, and for every rule 0 <= n < len(yyR2) (= 158) and every state
